@@ -275,6 +275,38 @@ func main() {
     print r1
 }
 """, [0, 42, 41, 43, 44], None),
+    ("nested-defer-function-falls-off-end", """@extensions true
+func f1() {
+    print 51
+}
+func f0() {
+    if 1 == 1 {
+        defer f1()
+    }
+    print 52
+}
+func f2() {
+    if 1 == 1 {
+        defer f1()
+        print 53
+    }
+    try {
+        if 1 == 1 {
+            defer f0()
+        }
+        print 54
+    } catch {
+        print 55
+    }
+    print 56
+}
+func main() {
+    f0()
+    print 57
+    f2()
+    print 58
+}
+""", [0, 52, 51, 57, 53, 54, 56, 52, 51, 51, 58], None),
     ("for-loop-in-try", """@extensions true
 func main() {
     try {
@@ -447,6 +479,10 @@ def run(ck):
     feat = {"try": 0, "defer": 0, "panic(": 0, "for ": 0, "recover()": 0, "return 1 /": 0}
     shapes = {"failing_deferred_call": sum(1 for p in progs if p and U.has_failing_defer(p)),
               "defer_heavy_recover_not_first": sum(1 for sx in srcs if sx.count("defer") >= 2 and "recover()" in sx and "panic(" in sx),
+              "function_without_result_falls_off_end": sum(1 for p in progs if p and any(f.get("final") is None for f in p["funs"])),
+              "nested_named_defer_no_toplevel_decl": sum(1 for p in progs if p and any(
+                  f.get("final") is None and all(x[0] in ("print", "ifc", "call", "try") for x in f["body"])
+                  and any(x[0] == "ifc" and any(y[0] == "defer_call" for y in x[2]) for x in f["body"]) for f in p["funs"])),
               "return_in_try_with_defers": sum(1 for sx in srcs if re.search(r"defer[\s\S]*try \{\s*(print \d+\s*)?(z\d+ := 0\s*)?return", sx) is not None)}
     oracle_viol = False
     oracle_bad = set()
